@@ -64,7 +64,9 @@ impl CallArgs {
             match k {
                 Value::Null => self.positional.push(v),
                 Value::Literal(s) => {
-                    self.named.insert(s.value().into(), v);
+                    if self.named.insert(s.value().into(), v).is_some() {
+                        return Err("Duplicate argument.".into());
+                    }
                 }
                 x => return Err(is_not(&x, "a string")),
             }
